@@ -828,6 +828,25 @@ impl ZmtpEngine {
   }
 }
 
+#[cfg(rzmq_verif)]
+impl ZmtpEngine {
+  /// Negotiated protocol version (read-only, verification builds).
+  pub fn verif_version(&self) -> Option<ZmtpVersion> {
+    self.version
+  }
+
+  /// Name of the mechanism the local configuration announces (read-only, verification builds).
+  pub fn verif_local_mechanism_name(&self) -> String {
+    String::from_utf8_lossy(local_mechanism_name_bytes(&self.config))
+      .trim_end_matches('\0')
+      .to_string()
+  }
+
+  pub fn verif_is_server(&self) -> bool {
+    self.is_server
+  }
+}
+
 // --- Module-level helpers ---
 
 fn local_mechanism_name_bytes(config: &ZmtpEngineConfig) -> &'static [u8; MECHANISM_LENGTH] {
